@@ -69,6 +69,10 @@ func modOf(src *dhcpv4.DHCPv4, k int, x, y []byte) dhcpv4.Modifier {
 	}
 }
 
+// srcOverride: when set, the builders are given this packet (for example one obtained by decoding) instead of the
+// one described by the arguments
+var srcOverride *dhcpv4.DHCPv4
+
 func runBuilder(a [][]byte) (*dhcpv4.DHCPv4, *dhcpv4.DHCPv4, error) { return runBuilderOpt(a, true) }
 
 // reuse: call the builder once before with the same modifier list (or a prefix of it), as callers do
@@ -77,6 +81,9 @@ func runBuilderOpt(a [][]byte, reuse bool) (*dhcpv4.DHCPv4, *dhcpv4.DHCPv4, erro
 	n := int(numArg(a[1]))
 	rest := a[2:]
 	src := pktOfArgs(rest[:n])
+	if srcOverride != nil {
+		src = srcOverride
+	}
 	var mods []dhcpv4.Modifier
 	r := rest[n:]
 	for len(r) >= 3 {
@@ -278,6 +285,30 @@ func genC15(r *Run) {
 						"the same builder call gives another packet once the caller's modifier list (built by append) has been passed to a builder before: "+firstDiff(o1, o2))
 				}
 			}
+		}
+		// direct oracle: packets built from one request are independent values: building a second one (other
+		// modifiers that copy, extend or replace options) changes neither the first nor the request - also when the
+		// request was obtained by decoding, whose option values have whatever spare capacity the decoder left them
+		if srcD, err := dhcpv4.FromBytes(pktOfArgs(src).ToBytes()); err == nil {
+			extra := [][]byte{{6}, {55}, {}, {14}, {byte(r.Pick(42, 66, 67, 119))}, {}}
+			first := append(append(append([][]byte{}, a...), extra...), mods...)
+			second := append(append(append([][]byte{}, a...), [][]byte{{6}, {55}, {}, {14}, {byte(r.Pick(43, 44, 2, 121))}, {}, {6}, {61}, {}, {6}, {82}, {}}...), mods...)
+			srcOverride = srcD
+			reqBefore := srcD.ToBytes()
+			_, p1, e1 := runBuilderOpt(first, false)
+			if e1 == nil {
+				w1 := p1.ToBytes()
+				_, _, _ = runBuilderOpt(second, false)
+				if w2 := p1.ToBytes(); !bytes.Equal(w1, w2) {
+					r.Fail("c15-built-packet-changed-by-later-build", trunc(Case{eV4Build, first}.Line(), 1200),
+						"a packet built from a decoded request encodes differently after a second packet was built from the same request: "+firstDiff(hx(w1), hx(w2)))
+				}
+				if rb := srcD.ToBytes(); !bytes.Equal(rb, reqBefore) {
+					r.Fail("c15-request-modified-by-builder", trunc(Case{eV4Build, first}.Line(), 1200),
+						"the request the packets were built from encodes differently afterwards: "+firstDiff(hx(reqBefore), hx(rb)))
+				}
+			}
+			srcOverride = nil
 		}
 		// direct oracle: for the field-setting modifiers the caller's LAST word prevails over defaults and earlier modifiers
 		if _, pf, ef := runBuilderOpt(full, false); ef == nil {
